@@ -181,6 +181,10 @@ def run(f, fixture, rep, cfg, tier):
     rep.check(seq == [("metadata", "self.metadata"), ("write_all", "self.content")], "O7", "Package|write-order", "the payload follows the metadata and nothing else is written",
               "Package::write emits %s" % seq, pw.span)
 
+    # ---- O8: the parse side keeps the size invariant too (C01.R5: the store is the whole declared data section) ----------
+    rep.rule("O8", "a parsed header's store is the declared data section (C01.R5)")
+    rep.include("c01", f, fixture, cfg, tier, "O8", "parsed header store", only_rules={"R5"}, floor=2)
+
 
 def check_invariant(f, rep, H, E):
     """Every site that creates a Header or writes one of {index_header.num_entries, index_header.data_section_size,
